@@ -1,11 +1,172 @@
-import Pycoin.Model.Address
-/-! C08 — addresses and output scripts are in one-to-one correspondence on every network. -/
+import Pycoin.Proofs.AddressLemmas
+/-!
+C08 — addresses and output scripts are in one-to-one correspondence on every network.
+
+The theorems are generic in the codecs and hashes (`Env`); what they need of them is collected in `CodecLaws`
+(the C11 round-trip theorems, instantiated by the driver's `realEnv`).  Everything that depends on a network is
+quantified over the *generated* table `Gen.Networks.all`; the side conditions on prefixes are decided by the kernel
+over the whole table (`decide +kernel`), so a changed symbol file re-checks them.
+-/
 namespace Pycoin.Addr
 open Pycoin.Gen.Networks
+
+/-- Python `str.lower()` on ASCII (Bech32 strings are ASCII) -/
+def asciiLower (s : String) : String := String.ofList (s.toList.map Char.toLower)
+
+/-- what the theorems assume of the codecs: the C11 round trips -/
+structure CodecLaws (env : Env) : Prop where
+  /-- C11_b58check_rt -/
+  b58_rt : ∀ d, d ≠ [] → env.b58cDec (env.b58cEnc d) = some d
+  /-- C11_b58check_accepts_iff + C11_b58_enc_dec: an accepted string is the encoding of its payload -/
+  b58_canon : ∀ s d, env.b58cDec s = some d → env.b58cEnc d = s
+  /-- C11 segwit_rt, encode then parse -/
+  seg_rt : ∀ hrp ver prog s, env.segwitEnc hrp ver prog = some s →
+    env.bech32Parse s = some (hrp, ver, prog, if ver = 0 then .bech32 else .bech32m)
+  /-- C11 segwit_rt, parse then encode (Bech32 is case-insensitive: the encoder writes lower case) -/
+  seg_canon : ∀ s hrp ver prog spec, env.bech32Parse s = some (hrp, ver, prog, spec) →
+    (ver = 0 → spec = .bech32) → (ver ≠ 0 → spec = .bech32m) → (prog.length = 20 ∨ prog.length = 32) → ver ≤ 16 →
+    env.segwitEnc hrp ver prog = some (asciiLower s)
+
+/-! ## the generated table -/
 
 /-- the producing side and the parsing side of every network hold the same address prefixes and HRP -/
 theorem C08_table_consistent :
     ∀ n ∈ all, n.addrP2pkh = n.parseP2pkh ∧ n.addrP2sh = n.parseP2sh ∧ n.addrHrp = n.parseHrp := by
   decide +kernel
+
+/-- on no network can a P2SH payload pass the P2PKH gate (same length and the P2PKH prefix in front) or the reverse,
+and no address prefix is empty -/
+def prefixesOk (n : Network) : Bool :=
+  (match n.parseP2pkh, n.parseP2sh with
+   | some p, some q => !(p.length = q.length && p = q)
+   | _, _ => true) &&
+  (match n.parseP2pkh with | some p => !p.isEmpty | none => true) &&
+  (match n.parseP2sh with | some p => !p.isEmpty | none => true)
+
+theorem C08_table_prefixes : ∀ n ∈ all, prefixesOk n = true := by decide +kernel
+
+/-- which networks lack which kinds (evaluated on the table; a test of the translator's output, shown in evidence) -/
+def kindsDefined (n : Network) : List String :=
+  (if n.addrP2pkh.isSome then ["p2pkh"] else []) ++ (if n.addrP2sh.isSome then ["p2sh"] else []) ++
+  (if n.addrHrp.isSome then ["p2pkh_wit", "p2sh_wit", "p2tr"] else [])
+
+/-! ## classification is faithful -/
+
+/-- ★ a script is reported as something other than `unknown` only if `for_info` rebuilds exactly its bytes -/
+theorem C08_classification_faithful (s : Bytes) (i : Info) (h : infoForScript s = .ok i) :
+    i = .unknown s ∨ forInfo i = .ok s := by
+  unfold infoForScript at h
+  cases hc : classify s with
+  | error e => simp [hc, bind, Except.bind] at h
+  | ok info =>
+    cases hf : forInfo info with
+    | error e => simp [hc, hf, bind, Except.bind] at h
+    | ok rebuilt =>
+      simp only [hc, hf, bind, Except.bind, pure, Except.pure] at h
+      split at h
+      · injection h with h; left; exact h.symm
+      · rename_i hne
+        injection h with h; subst h
+        right; rw [hf]; simp at hne; rw [hne]
+
+/-- … and in either case `for_info (info_for_script s)` is `s`: classification never loses the script -/
+theorem C08_classification_lossless (s : Bytes) (i : Info) (h : infoForScript s = .ok i) : forInfo i = .ok s := by
+  rcases C08_classification_faithful s i h with rfl | h
+  · rfl
+  · exact h
+
+/-- the five standard scripts are recognised as their kind -/
+theorem C08_classification_complete (i : Info) (hw : i.wellSized = true) : infoForScript (stdScript i) = .ok i :=
+  infoForScript_std i hw
+
+/-! ## address round trip -/
+
+def Info.isB58 : Info → Bool | .p2pkh _ => true | .p2sh _ => true | _ => false
+
+theorem isPrefixOf_append (p d : Bytes) : isPrefixOf p (p ++ d) = true := by simp [isPrefixOf]
+
+theorem drop_prefix (p d : Bytes) : (p ++ d).drop p.length = d := by simp
+
+theorem parseB58Addr_hit (env : Env) (laws : CodecLaws env) (net : Network) (hb : net.b58DoubleSha = true)
+    (p : Bytes) (hp : p ≠ []) (mk : Bytes → Info) (h : Bytes) (hl : h.length = 20) (hw : (mk h).wellSized = true) :
+    parseB58Addr env net (some p) mk (env.b58cEnc (p ++ h)) = .ok (some (mk h)) := by
+  unfold parseB58Addr parseB58Hashed
+  have hne : p ++ h ≠ [] := by simp [hp]
+  simp only [hb, if_true, laws.b58_rt _ hne, isPrefixOf_append, Bool.not_true, Bool.false_eq_true, if_false,
+    List.length_append, hl, ne_eq, not_true_eq_false, drop_prefix, forInfo_std _ hw, infoForScript_std _ hw, bind, Except.bind,
+    pure, Except.pure]
+
+theorem parseB58Addr_miss (env : Env) (laws : CodecLaws env) (net : Network) (hb : net.b58DoubleSha = true)
+    (p q : Bytes) (mk : Bytes → Info) (h : Bytes) (hl : h.length = 20) (hq : q ++ h ≠ [])
+    (hsep : ¬ (p.length = q.length ∧ p = q)) :
+    parseB58Addr env net (some p) mk (env.b58cEnc (q ++ h)) = .ok none := by
+  unfold parseB58Addr parseB58Hashed
+  simp only [hb, if_true, laws.b58_rt _ hq]
+  by_cases hpre : isPrefixOf p (q ++ h) = true
+  · by_cases hlen : (q ++ h).length = p.length + 20
+    · exfalso
+      have hpq : p.length = q.length := by simp [hl] at hlen; omega
+      apply hsep
+      refine ⟨hpq, ?_⟩
+      have : (q ++ h).take p.length = p := by simpa [isPrefixOf] using hpre
+      rw [hpq] at this
+      simpa using this.symm
+    · have hlen' : ¬ (q.length + h.length = p.length + 20) := by simpa using hlen
+      simp [hpre, hlen']
+  · simp [hpre]
+
+/-- ★ address round trip, Base58 kinds: on every network of the table that defines the prefix, the address of the
+standard P2PKH / P2SH script of any 20-byte hash parses back, on that network, to exactly that script -/
+theorem C08_addr_rt_b58 (env : Env) (laws : CodecLaws env) (net : Network) (hn : net ∈ all) (hb : net.b58DoubleSha = true)
+    (hdis : net.disabled.contains "address" = false)
+    (i : Info) (hk : i.isB58 = true) (hw : i.wellSized = true) (addr : String)
+    (ha : forScriptInfo env net i = .ok (some addr)) :
+    forScript env net (stdScript i) = .ok (some addr) ∧
+    parseAddress env net addr = .ok (some i) ∧ forInfo i = .ok (stdScript i) := by
+  have htab := C08_table_consistent net hn
+  have hpre := C08_table_prefixes net hn
+  refine ⟨?_, ?_, forInfo_std i hw⟩
+  · simp only [forScript, infoForScript_std i hw, bind, Except.bind, ha]
+  · cases i with
+    | p2pkh h =>
+      simp only [Info.wellSized, decide_eq_true_eq] at hw
+      simp only [forScriptInfo, forP2pkh, b58Out] at ha
+      cases hp : net.addrP2pkh with
+      | none => simp [hp] at ha
+      | some p =>
+        simp only [hp, hb, if_true, Except.ok.injEq, Option.some.injEq] at ha
+        subst ha
+        have hpp : net.parseP2pkh = some p := by rw [← htab.1, hp]
+        have hne : p ≠ [] := by
+          intro h0; subst h0
+          simp [prefixesOk, hpp] at hpre
+        unfold parseAddress
+        simp only [hdis, Bool.false_eq_true, if_false, parseP2pkh, hpp]
+        rw [parseB58Addr_hit env laws net hb p hne .p2pkh h hw (by simp [Info.wellSized, hw])]
+        rfl
+    | p2sh h =>
+      simp only [Info.wellSized, decide_eq_true_eq] at hw
+      simp only [forScriptInfo, forP2sh, b58Out] at ha
+      cases hq : net.addrP2sh with
+      | none => simp [hq] at ha
+      | some q =>
+        simp only [hq, hb, if_true, Except.ok.injEq, Option.some.injEq] at ha
+        subst ha
+        have hqq : net.parseP2sh = some q := by rw [← htab.2.1, hq]
+        have hne : q ≠ [] := by
+          intro h0; subst h0
+          simp [prefixesOk, hqq] at hpre
+        have hfirst : parseP2pkh env net (env.b58cEnc (q ++ h)) = .ok none := by
+          unfold parseP2pkh
+          cases hp : net.parseP2pkh with
+          | none => simp [parseB58Addr]
+          | some p =>
+            apply parseB58Addr_miss env laws net hb p q .p2pkh h hw (by simp [hne])
+            intro ⟨h1, h2⟩
+            simp [prefixesOk, hp, hqq, h2] at hpre
+        unfold parseAddress
+        simp only [hdis, Bool.false_eq_true, if_false, hfirst, orElse, parseP2sh, hqq]
+        rw [parseB58Addr_hit env laws net hb q hne .p2sh h hw (by simp [Info.wellSized, hw])]
+    | _ => simp [Info.isB58] at hk
 
 end Pycoin.Addr
